@@ -163,7 +163,9 @@ class History:
         with warnings.catch_warnings():
             warnings.simplefilter("ignore")
             try:
-                ret = dst.set_params(**src.get_params(deep=True))
+                # the parameter set is deep-copied so that the two instances do not end up SHARING nested estimator objects
+                # (sharing is plain Python aliasing, not a property of the library; the specification keeps one view per object)
+                ret = dst.set_params(**(copy.deepcopy(src.get_params(deep=True)) if src is not dst else src.get_params(deep=True)))
             except Exception as e:
                 raised, err = True, repr(e)[:150]
         self.ev(a="crossfeed", h=h, h2=h2, raised=raised, err=err, ret_self=ret is dst, view=view_of(dst))
